@@ -157,7 +157,7 @@ def run(chk):
         "impls with/without 'as' and rename, extension values of every form incl. nested arrays, signal blocks, services, devices) printed to "
         "tokens, with the optional separators chosen at random, and rendered under the canonical and under random formattings (spaces, tabs, "
         "newlines, // and /* */ comments between any two tokens); get_fcp_from_string's tree is compared in Coq with the model front end; "
-        "non-trivial = >= 3 items; distinct = rendered text")
+        "the same for declarations spread over a main file and modules (implementation side: tree of the files = tree of the inlined text); non-trivial = >= 3 items; distinct = rendered text")
     oracle = printer.float_oracle(None)
     cases, meta, fails, pcases, pmeta = [], [], [], [], []
     # known finding builtin-prefix: replay its class first
@@ -206,6 +206,31 @@ def run(chk):
                               "texts_parsed_before_in_the_same_process (last 3; the replay parses them first)": history[-4:-1]})
         if len(trees) > 1 and any(t != trees[0] for t in trees[1:]):
             fails.append({"kind": "result-depends-on-formatting-or-optional-separators", "sources": texts})
+    # the same declarations spread over a main file and modules (also two modules with one file name in different directories): the
+    # tree holds exactly what the texts declare, as the single text obtained by inlining every module at its import does
+    from props.c20 import build_split
+    import shutil
+    work = common.scratch_dir("verif_c07_")
+    try:
+        for k in range(14 if quick else 150):
+            items, flat, mods = build_split(chk.rng, chk.rng.randint(1, 3), "", "")
+            if not mods:
+                continue
+            files = {p: printer.render(printer.tokens(its)) for p, its in mods.items()}
+            files["main.fcp"] = printer.render(printer.tokens(items))
+            o_split = front_run.run_front(files, workdir=f"{work}/s{k}")
+            o_single = front_run.run_front({"main.fcp": printer.render(printer.tokens(flat))})
+            chk.count(json.dumps(files, sort_keys=True), nontrivial=True, sample={"files": {p: t[:120] for p, t in files.items()}, "outcome": o_split[0]})
+            chk.hist("multi_file", o_split[0])
+            if o_split[0] != "ok" or o_single[0] != "ok":
+                fails.append({"kind": "well-formed-multi-file-schema-rejected", "source": json.dumps(files), "files": files, "split": o_split[0], "single": o_single[0],
+                              "detail": str(o_split[1] if o_split[0] != "ok" else o_single[1])[:300]})
+            elif o_split[1].to_dict() != o_single[1].to_dict():
+                a, b = o_split[1].to_dict(), o_single[1].to_dict()
+                fails.append({"kind": "tree-of-multi-file-schema-is-not-what-the-texts-declare", "source": json.dumps(files), "files": files,
+                              "differs_in": [key for key in b if a.get(key) != b.get(key)]})
+    finally:
+        shutil.rmtree(work, ignore_errors=True)
     chk.log(f"{len(cases)} sources; implementation-side failures: {len(fails)}")
     chk.coverage["traces_validated_against_impl"] = len(cases)
     mism, dom = [], []
